@@ -136,6 +136,14 @@ Round 3 seeded changes: r3m3 (DCE trailing-input trimming) detected with input. 
   name only once) needs a double clash: template (e) = sibling subgraphs owning same-named initializers while w_1 / w_2 are
   taken in the main graph by a fed input / initializer / node output.  (A subgraph initializer shadowing a main-graph name is
   outside the quantifier: the reference evaluator lets the outer value win.)
+Round 4 seeded changes: r4m1 detected.  r4m2 (RemoveUnusedFunctionsPass keeps its `_used` set across calls of the same
+  object when a run removed nothing): every run of the check built a fresh pass object per model -> new spec field
+  `reuse_history` (run_case applies ONE object per pass name to the earlier models, then to this one; self-contained, so
+  oracle / shrink / replay re-create it) and a stream reuse_cases (pairs/triples of generated models, whose function
+  identifiers Fn0.. recur, plus a template "nothing to remove, then the same identifier with a body that calls a function
+  reachable no other way").  The Coq model is stateless: the reused run must equal the fresh run.  r4m3
+  (RemoveInitializersFromInputs compares NAMES model-wide): targeted template (f) = a Loop body's formal input named like an
+  initializer owned by a sibling If branch.
 Wall time: quick ~60-110 s under load (40 specs x (22 single passes + 5 sequences) + corpus), thorough ~9-12 min (400 specs).
 """
 
@@ -611,8 +619,28 @@ def run_case(spec: dict, passes: list[str], conv_steps: bool = True):
     protos = [mp0]
     steps = []
     raised = None
+    # spec["reuse_history"] = [[spec_A, passes_A], ...]: ONE pass object per pass name is used for the earlier models and
+    # then for this one (a pass has no state: the run on this model must equal a run with fresh objects, which is what the
+    # Coq model and the oracle expect).  Self-contained: every call re-creates the objects and the history.
+    pool = None
+    if spec.get("reuse_history"):
+        pool = {}
+        for hspec, hpasses in spec["reuse_history"]:
+            try:
+                hm = ir.serde.deserialize_model(onnx.ModelProto.FromString(G.build(hspec).SerializeToString()))
+                for hname in hpasses:
+                    if hname not in pool:
+                        pool[hname] = make_pass(hname)
+                    hm = pool[hname](hm).model
+            except Exception:  # noqa: BLE001
+                pass
     for i, name in enumerate(passes):
-        p = make_pass(name)
+        if pool is None:
+            p = make_pass(name)
+        else:
+            if name not in pool:
+                pool[name] = make_pass(name)
+            p = pool[name]
         st = None
         if conv_steps:
             st = Step()
@@ -1281,6 +1309,74 @@ def targeted_cases(rng, n: int):
         cases.append(({"opset": 18, "inputs": e_in, "inits": e_init, "functions": [], "nodes": en, "outputs": [["y", "F2"], ["base", "F2"]]},
                       rng.choice([["liftsub"], ["liftsub", "dedup"], ["liftsub", "rminit"], ["liftsub", "liftsub"], ["dce", "liftsub"]]),
                       rng.randrange(1 << 30)))
+        # (f) a Loop body whose formal input carries the NAME of an initializer owned by a graph of a sibling scope (an If
+        #     branch / another Loop body): legal, the names live in different scopes
+        kn = rng.choice(["k", "w", "acc"])
+        which = rng.choice([0, 1, 2])               # which of the body's formal inputs carries the coinciding name
+        bi = ["it0", "cin0", "car0"]
+        bi[which] = kn
+        kind, data = [("I", [2]), ("B", [1]), ("F2", [10.0, 20.0])][which]
+        body = {"name": "body0", "inputs": [[bi[0], "I"], [bi[1], "B"], [bi[2], "F2"]], "inits": [],
+                "nodes": [N("Identity", [bi[1]], ["cout0"]), N("Add", [bi[2], "xw"], ["nx0"])], "outputs": [["cout0", "B"], ["nx0", "F2"]]}
+        tn = {"I": [N("Constant", [], ["one0"], value=["t", ["I", [1]]]), N("Mul", [kn, "one0"], ["kk"]), N("Add", ["xw", "xw"], ["t_o"])],
+              "B": [N("Where", [kn, "xw", "x0"], ["t_o"])],
+              "F2": [N("Add", ["xw", kn], ["t_o"])]}[kind]
+        th = {"name": "th0", "inputs": [], "inits": [[kn, kind, data, False]], "nodes": tn, "outputs": [["t_o", "F2"]]}
+        el = {"name": "el0", "inputs": [], "inits": [], "nodes": [N("Neg", ["xw"], ["e_o"])], "outputs": [["e_o", "F2"]]}
+        if rng.random() < 0.5:
+            th, el = dict(el, name="th0"), dict(th, name="el0")
+        ifn = N("If", ["c0"], ["y"], then_branch=["g", th], else_branch=["g", el])
+        tripn = N("Constant", [], ["trip"], value=["t", ["I", [rng.choice([1, 2, 3])]]])
+        cond = rng.choice(["", "c0"])
+        if rng.random() < 0.5:
+            fnodes = [N("Mul", ["x0", "wi"], ["xw"]), ifn, tripn, N("Loop", ["trip", cond, "y"], ["acc0"], body=["g", body])]
+        else:
+            fnodes = [N("Mul", ["x0", "wi"], ["xw"]), tripn, N("Loop", ["trip", cond, "xw"], ["acc0"], body=["g", body]), ifn]
+        cases.append(({"opset": 18, "inputs": [["x0", "F2"], ["c0", "B"], ["wi", "F2"]], "inits": [["wi", "F2", [0.5, 0.25], True]],
+                       "functions": [], "nodes": fnodes, "outputs": [["y", "F2"], ["acc0", "F2"]]},
+                      rng.choice([["rminit"], ["rminit", "dce"], ["addinit", "rminit"], ["rminit", "rminit"], ["rminit", "dedup"]]),
+                      rng.randrange(1 << 30)))
+    return cases
+
+
+def reuse_cases(rng, n: int):
+    """ONE pass object per pass name applied to several models in turn (spec['reuse_history'], see run_case): whatever a run
+    leaves behind in the object must not influence the next model."""
+    N = lambda op, ins, outs, dom="", **attrs: {"op": op, "dom": dom, "ins": ins, "outs": outs, "attrs": attrs}  # noqa: E731
+    F = lambda name, ins, outs, nodes: {"name": name, "dom": "local", "ins": ins, "outs": outs, "attrs": [], "defaults": {}, "nodes": nodes}  # noqa: E731
+    cases = []
+    for i in range(n):
+        # (a) generated models: the general generator names its functions Fn0, Fn1, ... in every model, so identifiers,
+        #     value names and operator sets recur from one model to the next
+        specs = []
+        for _ in range(rng.choice([2, 2, 3])):
+            specs.append(G.Gen(random.Random(rng.randrange(1 << 30))).gen_model())
+        k = rng.choice([1, 2, 3])
+        passes = [rng.choice(PASS_NAMES) for _ in range(k)]
+        if rng.random() < 0.5:
+            passes[rng.randrange(k)] = rng.choice(["rmfunc", "inline", "defattr", "cse", "dedup", "liftsub"])
+        cases.append((dict(specs[-1], reuse_history=[[s, passes] for s in specs[:-1]]), passes, rng.randrange(1 << 30)))
+        # (b) first a model in which the pass finds nothing to do (every function used / nothing to lift / ...), then a
+        #     model that reuses the identifiers with different content
+        un, un2 = rng.choice(["Relu", "Abs", "Tanh"]), rng.choice(["Neg", "Floor", "Sigmoid"])
+        a_fns = [F("Fa", ["a"], ["r"], [N(un, ["a"], ["r"])])]
+        a_nodes = [N("Fa", ["x0"], ["y"], dom="local")]
+        if rng.random() < 0.5:
+            a_fns.append(F("Fb", ["a"], ["r"], [N(un2, ["a"], ["r"])]))
+            a_nodes = [N("Fa", ["x0"], ["t0"], dom="local"), N("Fb", ["t0"], ["y"], dom="local")]
+        spec_a = {"opset": 18, "inputs": [["x0", "F2"]], "inits": [], "functions": a_fns, "nodes": a_nodes, "outputs": [["y", "F2"]]}
+        b_fns = [F("Fg", ["a"], ["r"], [N(un2, ["a"], ["r"])]),
+                 F("Fa", ["a"], ["r"], [N("Fg", ["a"], ["m"], dom="local"), N(un, ["m"], ["r"])]),
+                 F("Fnever", ["a"], ["r"], [N("Abs", ["a"], ["r"])])]
+        # (the reference evaluator wants a callee defined before its caller)
+        never = b_fns.pop()
+        if rng.random() < 0.7:
+            b_fns.insert(rng.choice([0, 1, 2]), never)
+        spec_b = {"opset": 18, "inputs": [["x0", "F2"]], "inits": [], "functions": b_fns,
+                  "nodes": [N("Fa", ["x0"], ["t0"], dom="local"), N("Neg", ["t0"], ["y"])], "outputs": [["y", "F2"]]}
+        passes = rng.choice([["rmfunc"], ["dce", "rmfunc", "rmopset"], ["rmfunc", "inline"], ["rmfunc", "rmfunc"]])
+        hist = [[spec_a, passes]] * rng.choice([1, 2])
+        cases.append((dict(spec_b, reuse_history=hist), passes, rng.randrange(1 << 30)))
     return cases
 
 
@@ -1437,6 +1533,10 @@ def run(ck) -> None:
     failures += f4
     mism += m4
     ck.hist("streams", "targeted-templates")
+    f5, m5 = check_cases(ck, reuse_cases(ck.rng, 6 if not ck.thorough else 60), "reuse")
+    failures += f5
+    mism += m5
+    ck.hist("streams", "reused-pass-objects")
     for st, (spec, passes, seed) in mism[:5]:
         path = ck.write_replay({"kind": "correspondence-mismatch", "pass": st.pass_name, "step_kind": st.kind, "spec": spec,
                                 "passes": passes, "input_seed": seed, "model_expr": st.expr,
